@@ -179,3 +179,143 @@ Fixpoint sort_desc (l : list (Z * Z)) : list (Z * Z) :=
 Definition next_set (maxv : Z) (scan : list (Z * Z)) : list (Z * Z) :=
   firstn (Z.to_nat maxv) (sort_desc (rev scan)).
 (* note: inserting the reversed scan right-to-left = inserting scan order left-to-right *)
+
+(* ---------------------------------------------------------------------------------------------- *)
+(* the staking system as a state machine: validators (stake vault, stake-unit supply, pending
+   withdraw vault, owner's locked stake units, fee factor, registration, outstanding claim NFTs),
+   the consensus manager's rewards vault and proposer-reward counters, the epoch, and three ghost
+   counters used to state conservation: XRD received from users (stakes, fees), XRD paid out to
+   users (claims), XRD minted as emission. *)
+
+Record vst := {
+  sv : Z;                    (* stake_xrd_vault *)
+  su : Z;                    (* total supply of the stake unit resource *)
+  spend : Z;                 (* pending_xrd_withdraw_vault *)
+  slock : Z;                 (* locked_owner_stake_unit_vault (stake units) *)
+  sff : Z;                   (* validator_fee_factor *)
+  sreg : bool;               (* is_registered *)
+  sclaims : list (Z * Z)     (* claim NFTs: (claim_amount, claim_epoch) *)
+}.
+Record sys := {
+  svals : list vst;
+  srv : Z;                   (* rewards vault *)
+  sprop : list (Z * Z);      (* proposer rewards by active-set position *)
+  sepoch : Z;
+  g_in : Z; g_out : Z; g_mint : Z
+}.
+
+Inductive sop :=
+| SStake (i x : Z)
+| SUnstake (i n nue : Z)                 (* nue = config.num_unstake_epochs *)
+| SClaim (i amt ce : Z)                  (* claim_xrd with the claim NFT (amt, ce) *)
+| SFee (leader p s : Z)                  (* fee distribution of a committed transaction:
+                                            p to the proposer's counter, p + s into the rewards vault *)
+| SEpoch (te minrel : Z) (active : list (Z * Z * Z * Z))
+(* effects of update_fee (once effective) and register / unregister: they move no XRD; the delay
+   rules of fee changes are not modelled *)
+| SSetFee (i ff : Z)
+| SSetReg (i : Z) (b : bool).
+
+Fixpoint upd_nth {A} (n : nat) (f : A -> option A) (l : list A) : option (list A) :=
+  match l, n with
+  | [], _ => None
+  | x :: l', O => let? y := f x in Some (y :: l')
+  | x :: l', S k => let? r := upd_nth k f l' in Some (x :: r)
+  end.
+Definition upd_val (i : Z) (f : vst -> option vst) (s : sys) : option (list vst) :=
+  if i <? 0 then None else upd_nth (Z.to_nat i) f (svals s).
+
+Definition v_stake (x : Z) (v : vst) : option vst :=
+  if x <? 0 then None else
+  let? r := stake x (sv v) (su v) in
+  let '(m, v', u') := r in
+  Some {| sv := v'; su := u'; spend := spend v; slock := slock v; sff := sff v; sreg := sreg v;
+          sclaims := sclaims v |}.
+Definition v_unstake (n ce : Z) (v : vst) : option vst :=
+  if n <? 0 then None else
+  let? r := unstake n (sv v) (su v) in
+  let '(c, v', u') := r in
+  let? p' := dadd (spend v) c in                       (* unstake_vault.put *)
+  Some {| sv := v'; su := u'; spend := p'; slock := slock v; sff := sff v; sreg := sreg v;
+          sclaims := (c, ce) :: sclaims v |}.
+Fixpoint remove_claim (a ce : Z) (l : list (Z * Z)) : option (list (Z * Z)) :=
+  match l with
+  | [] => None
+  | (a', ce') :: l' => if (a =? a') && (ce =? ce') then Some l'
+                       else let? r := remove_claim a ce l' in Some ((a', ce') :: r)
+  end.
+Definition v_claim (amt ce cur : Z) (v : vst) : option vst :=
+  let? cl := remove_claim amt ce (sclaims v) in
+  if cur <? ce then None else                           (* EpochUnlockHasNotOccurredYet *)
+  if (amt <? 0) || (spend v <? amt) then None else      (* unstake_vault.take *)
+  Some {| sv := sv v; su := su v; spend := spend v - amt; slock := slock v; sff := sff v;
+          sreg := sreg v; sclaims := cl |}.
+Definition v_emit (e : Z) (v : vst) : option vst :=
+  let? r := apply_emission (sff v) e (sv v) (su v) in
+  let '(v', u') := r in
+  Some {| sv := v'; su := u'; spend := spend v; slock := slock v + (u' - su v); sff := sff v;
+          sreg := sreg v; sclaims := sclaims v |}.
+Definition v_reward (r : Z) (v : vst) : option vst :=
+  let? x := apply_reward r (sv v) (su v) in
+  let '(v', u') := x in
+  Some {| sv := v'; su := u'; spend := spend v; slock := slock v + (u' - su v); sff := sff v;
+          sreg := sreg v; sclaims := sclaims v |}.
+
+Definition v_set_fee (ff : Z) (v : vst) : option vst :=
+  if (ff <? 0) || (DD <? ff) then None else             (* check_validator_fee_factor *)
+  Some {| sv := sv v; su := su v; spend := spend v; slock := slock v; sff := ff; sreg := sreg v;
+          sclaims := sclaims v |}.
+Definition v_set_reg (b : bool) (v : vst) : option vst :=
+  Some {| sv := sv v; su := su v; spend := spend v; slock := slock v; sff := sff v; sreg := b;
+          sclaims := sclaims v |}.
+
+Fixpoint apply_list (f : Z -> vst -> option vst) (l : list (Z * Z)) (vs : list vst) : option (list vst) :=
+  match l with
+  | [] => Some vs
+  | (id, a) :: l' =>
+      if id <? 0 then None else
+      let? vs1 := upd_nth (Z.to_nat id) (f a) vs in apply_list f l' vs1
+  end.
+
+Fixpoint add_prop (k p : Z) (l : list (Z * Z)) : list (Z * Z) :=
+  match l with
+  | [] => [(k, p)]
+  | (k', v) :: l' => if k =? k' then (k', v + p) :: l' else (k', v) :: add_prop k p l'
+  end.
+Fixpoint zsum (l : list Z) : Z := match l with [] => 0 | x :: l' => x + zsum l' end.
+
+Definition with_vals (s : sys) (vs : list vst) (din dout : Z) : sys :=
+  {| svals := vs; srv := srv s; sprop := sprop s; sepoch := sepoch s;
+     g_in := g_in s + din; g_out := g_out s + dout; g_mint := g_mint s |}.
+
+Definition sstep (s : sys) (o : sop) : option sys :=
+  match o with
+  | SStake i x => let? vs := upd_val i (v_stake x) s in Some (with_vals s vs x 0)
+  | SUnstake i n nue => let? vs := upd_val i (v_unstake n (sepoch s + nue)) s in Some (with_vals s vs 0 0)
+  | SClaim i amt ce => let? vs := upd_val i (v_claim amt ce (sepoch s)) s in Some (with_vals s vs 0 amt)
+  | SFee leader p q =>
+      if (p <? 0) || (q <? 0) then None else
+      Some {| svals := svals s; srv := srv s + (p + q); sprop := add_prop leader p (sprop s);
+              sepoch := sepoch s; g_in := g_in s + (p + q); g_out := g_out s; g_mint := g_mint s |}
+  | SEpoch te minrel active =>
+      let? es := emissions te minrel active in
+      let? rs := rewards minrel active (sprop s) (srv s) in
+      (* rewards_vault.take(total_rewards) for every validator *)
+      if existsb (fun it : Z * Z => snd it <? 0) rs || (srv s <? zsum (map snd rs)) then None else
+      let? vs1 := apply_list v_emit es (svals s) in
+      let? vs2 := apply_list v_reward rs vs1 in
+      Some {| svals := vs2; srv := srv s - zsum (map snd rs); sprop := []; sepoch := sepoch s + 1;
+              g_in := g_in s; g_out := g_out s; g_mint := g_mint s + zsum (map snd es) |}
+  | SSetFee i ff => let? vs := upd_val i (v_set_fee ff) s in Some (with_vals s vs 0 0)
+  | SSetReg i b => let? vs := upd_val i (v_set_reg b) s in Some (with_vals s vs 0 0)
+  end.
+
+(* a failed transaction leaves the state unchanged *)
+Fixpoint srun (s : sys) (ops : list sop) : sys :=
+  match ops with
+  | [] => s
+  | o :: ops' => srun (match sstep s o with Some s' => s' | None => s end) ops'
+  end.
+
+(* all XRD held by the staking system *)
+Definition held (s : sys) : Z := zsum (map (fun v => sv v + spend v) (svals s)) + srv s.
